@@ -109,19 +109,19 @@ theorem findBlock_of_mem {f : Func} (hd : allDistinct f.blockNames = true) {b : 
     f.findBlock b.name = some b :=
   find_of_mem_distinct (by simpa [Func.blockNames] using hd) hb
 
-theorem instrAt_iff {f : Func} {p : Pos} {i : Instr} :
-    instrAt f p = some i ↔ ∃ b, f.findBlock p.1 = some b ∧ b.instrs[p.2]? = some i := by
-  simp only [instrAt]
+theorem instrAtPos_iff {f : Func} {p : Pos} {i : Instr} :
+    instrAtPos f p = some i ↔ ∃ b, f.findBlock p.1 = some b ∧ b.instrs[p.2]? = some i := by
+  simp only [instrAtPos]
   cases f.findBlock p.1 with
   | none => simp
   | some b => simp
 
 /-- two instructions defining the same name are the same instruction -/
 theorem defs_unique {f : Func} {T : DomTab} (hf : SSAFacts f T) {p p' : Pos} {i i' : Instr} {d : String}
-    (h : instrAt f p = some i) (hd : dstName i = some d) (h' : instrAt f p' = some i') (hd' : dstName i' = some d) :
+    (h : instrAtPos f p = some i) (hd : dstName i = some d) (h' : instrAtPos f p' = some i') (hd' : dstName i' = some d) :
     p = p' := by
-  obtain ⟨b, hb, hi⟩ := instrAt_iff.1 h
-  obtain ⟨b', hb', hi'⟩ := instrAt_iff.1 h'
+  obtain ⟨b, hb, hi⟩ := instrAtPos_iff.1 h
+  obtain ⟨b', hb', hi'⟩ := instrAtPos_iff.1 h'
   obtain ⟨hm, hn⟩ := findBlock_mem hb
   obtain ⟨hm', hn'⟩ := findBlock_mem hb'
   have e1 := (hf.defs b hm p.2 i hi d hd).1
@@ -133,13 +133,13 @@ theorem defs_unique {f : Func} {T : DomTab} (hf : SSAFacts f T) {p p' : Pos} {i 
   rw [← hn, ← hn', e2.1, e2.2]
 
 theorem not_param_of_def {f : Func} {T : DomTab} (hf : SSAFacts f T) {p : Pos} {i : Instr} {d : String}
-    (h : instrAt f p = some i) (hd : dstName i = some d) : isParam f d = false := by
-  obtain ⟨b, hb, hi⟩ := instrAt_iff.1 h
+    (h : instrAtPos f p = some i) (hd : dstName i = some d) : isParam f d = false := by
+  obtain ⟨b, hb, hi⟩ := instrAtPos_iff.1 h
   exact (hf.defs b (findBlock_mem hb).1 p.2 i hi d hd).2
 
 theorem defPos_of_def {f : Func} {T : DomTab} (hf : SSAFacts f T) {p : Pos} {i : Instr} {d : String}
-    (h : instrAt f p = some i) (hd : dstName i = some d) : defPos f d = some p := by
-  obtain ⟨b, hb, hi⟩ := instrAt_iff.1 h
+    (h : instrAtPos f p = some i) (hd : dstName i = some d) : defPos f d = some p := by
+  obtain ⟨b, hb, hi⟩ := instrAtPos_iff.1 h
   have := (hf.defs b (findBlock_mem hb).1 p.2 i hi d hd).1
   rw [this, (findBlock_mem hb).2]
 
@@ -177,5 +177,641 @@ theorem terminator_is_last {b : Block} (h : b.terminatedOk = true) {k : Nat} {i 
   refine ⟨by rw [he]; simp, ?_⟩
   simp only [Block.succs, he]
   simp
+
+
+/-! ### pure instructions and their equations -/
+
+/-- instructions whose result is a function of the current values of their operands only -/
+def pureKind : Instr → Bool
+  | .const .. | .addrof .. | .binop .. | .unop .. | .cast .. => true
+  | _ => false
+
+/-- the equation of instruction `i` holds in `env`: re-executing `i` now would assign its result the value
+    that the result already has -/
+def Holds (ctx : Ctx) (env : Env) (i : Instr) : Prop :=
+  ∃ d v, dstName i = some d ∧ (∀ fname mem, effect ctx fname mem env i = some (.ok (mem, some (d, v)))) ∧
+    env.get d = some v
+
+/-- executing a pure instruction: the result does not depend on memory or the function name -/
+theorem pure_effect {ctx : Ctx} {fname : String} {mem : Mem} {env : Env} {i : Instr} (hp : pureKind i = true)
+    {p : Mem × Option (String × Val)} (h : effect ctx fname mem env i = some (.ok p)) :
+    ∃ d v, dstName i = some d ∧ p = (mem, some (d, v)) ∧
+      ∀ fname' mem', effect ctx fname' mem' env i = some (.ok (mem', some (d, v))) := by
+  cases i <;> simp only [pureKind, Bool.false_eq_true] at hp <;>
+    simp only [effect, Option.some.injEq, bind, Except.bind, pure, Except.pure] at h ⊢
+  case const d ty c =>
+    cases hv : Spec.IR.evalConst ctx.cfg ty c with
+    | error e => simp [hv] at h
+    | ok v => simp only [hv, Except.ok.injEq] at h; exact ⟨d, v, rfl, h.symm, fun _ _ => rfl⟩
+  case addrof d src =>
+    cases hv : evalOpnd ctx env src with
+    | error e => simp [hv] at h
+    | ok v => simp only [hv, Except.ok.injEq] at h; exact ⟨d, v, rfl, h.symm, fun _ _ => rfl⟩
+  case binop d ty op a b =>
+    cases hx : evalOpnd ctx env a with
+    | error e => simp [hx] at h
+    | ok x =>
+      cases hy : evalOpnd ctx env b with
+      | error e => simp [hx, hy] at h
+      | ok y =>
+        cases hv : evalBinop ctx.cfg ty op x y with
+        | error e => simp [hx, hy, hv] at h
+        | ok v => simp only [hx, hy, hv, Except.ok.injEq] at h; exact ⟨d, v, rfl, h.symm, fun _ _ => by simp only [hv]⟩
+  case unop d ty op a =>
+    cases hx : evalOpnd ctx env a with
+    | error e => simp [hx] at h
+    | ok x =>
+      cases hv : evalUnop ctx.cfg ty op x with
+      | error e => simp [hx, hv] at h
+      | ok v => simp only [hx, hv, Except.ok.injEq] at h; exact ⟨d, v, rfl, h.symm, fun _ _ => by simp only [hv]⟩
+  case cast d ty a =>
+    cases hx : evalOpnd ctx env a with
+    | error e => simp [hx] at h
+    | ok x =>
+      cases hv : evalCast ctx.cfg ty x with
+      | error e => simp [hx, hv] at h
+      | ok v => simp only [hx, hv, Except.ok.injEq] at h; exact ⟨d, v, rfl, h.symm, fun _ _ => by simp only [hv]⟩
+
+theorem evalOpnd_set_ne (ctx : Ctx) (env : Env) (z : String) (w : Val) {o : Operand} (h : o ≠ .loc z) :
+    evalOpnd ctx (env.set z w) o = evalOpnd ctx env o := by
+  cases o with
+  | glob g => rfl
+  | loc x =>
+    have : x ≠ z := fun e => h (by rw [e])
+    simp only [evalOpnd, Env.get_set_ne _ _ _ _ this]
+
+/-- assigning a name that is neither the result nor an operand of `i` keeps the equation of `i` -/
+theorem Holds.set {ctx : Ctx} {env : Env} {i : Instr} (h : Holds ctx env i) {z : String} (w : Val)
+    (hd : dstName i ≠ some z) (hu : Operand.loc z ∉ i.uses) : Holds ctx (env.set z w) i := by
+  obtain ⟨d, v, hdn, heff, hget⟩ := h
+  refine ⟨d, v, hdn, ?_, ?_⟩
+  · intro fname mem
+    have := effect_congr (ctx := ctx) (ctx' := ctx) rfl rfl (env := env) (env' := env.set z w) (i := i) id fname mem
+      (fun o ho => evalOpnd_set_ne ctx env z w (fun e => hu (e ▸ ho)))
+    rw [mapOps_id] at this
+    rw [this]; exact heff fname mem
+  · have : d ≠ z := fun e => hd (by rw [hdn, e])
+    rw [Env.get_set_ne _ _ _ _ this]; exact hget
+
+/-! ### freshness from the static facts -/
+
+theorem sdomPt_irrefl (T : DomTab) (p : Pos) : sdomPt T p p = false := by
+  simp [sdomPt]
+
+/-- The instruction at `q` defines `z`; `j` at `p` is an instruction whose position strictly dominates `q`,
+    or lies in another block that dominates the block of `q`.  Then `z` is neither the result nor an operand
+    of `j`. -/
+theorem fresh_of_facts {f : Func} {T : DomTab} (hf : SSAFacts f T) {p q : Pos} {j i : Instr} {z : String}
+    (hj : instrAtPos f p = some j) (hi : instrAtPos f q = some i) (hz : dstName i = some z)
+    (hdom : sdomPt T p q = true ∨ (p.1 ≠ q.1 ∧ T.dom p.1 q.1 = true)) :
+    dstName j ≠ some z ∧ Operand.loc z ∉ j.uses := by
+  have hdom' : sdomPt T p q = true ∨ (p.1 ≠ q.1 ∧ T.dom p.1 q.1 = true) := hdom
+  constructor
+  · intro hdj
+    have e := defs_unique hf hj hdj hi hz
+    subst e
+    rcases hdom with h | h
+    · rw [sdomPt_irrefl] at h; exact Bool.noConfusion h
+    · exact h.1 rfl
+  · intro hu
+    obtain ⟨b, hb, hjb⟩ := instrAtPos_iff.1 hj
+    obtain ⟨hbm, hbn⟩ := findBlock_mem hb
+    have huse := (hf.uses b hbm p.2 j hjb).1 _ hu
+    simp only [useOk, not_param_of_def hf hi hz, Bool.false_or, defPos_of_def hf hi hz] at huse
+    -- huse : sdomPt T q (b.name, p.2)
+    rw [hbn] at huse
+    rcases hdom with h | h
+    · -- sdomPt p q and sdomPt q p
+      simp only [sdomPt] at h huse
+      by_cases e : p.1 = q.1
+      · simp only [e, ↓reduceIte, decide_eq_true_eq] at h huse; omega
+      · have e' : ¬ q.1 = p.1 := fun x => e x.symm
+        simp only [e, e', ↓reduceIte] at h huse
+        exact hf.antisym _ _ e h huse
+    · simp only [sdomPt] at huse
+      have e' : ¬ q.1 = p.1 := fun x => h.1 x.symm
+      simp only [e', ↓reduceIte] at huse
+      exact hf.antisym _ _ h.1 h.2 huse
+
+
+/-! ### the invariant -/
+
+theorem instrAtPos_det {f : Func} {p : Pos} {i j : Instr} (hi : instrAtPos f p = some i) (hj : instrAtPos f p = some j) :
+    i = j := by rw [hi] at hj; exact Option.some.inj hj
+
+theorem sdomPt_succ {T : DomTab} {p : Pos} {c : String} {k : Nat} (h : sdomPt T p (c, k + 1) = true)
+    (hne : p ≠ (c, k)) : sdomPt T p (c, k) = true := by
+  simp only [sdomPt] at h ⊢
+  by_cases e : p.1 = c
+  · simp only [e, ↓reduceIte, decide_eq_true_eq] at h ⊢
+    have : p.2 ≠ k := fun e2 => hne (by cases p; simp_all)
+    omega
+  · simp only [e, ↓reduceIte] at h ⊢; exact h
+
+theorem pure_not_terminator {j : Instr} (h : pureKind j = true) : j.isTerminator = false := by
+  cases j <;> simp_all [pureKind, Instr.isTerminator]
+
+/-- the equations that must hold after the instruction `i` at `(cur, k)` has been executed -/
+theorem inv_advance {ctx : Ctx} {f : Func} {T : DomTab} (hf : SSAFacts f T) {cur : String} {k : Nat} {i : Instr}
+    (hi : instrAtPos f (cur, k) = some i) {env env' : Env}
+    (hinv : ∀ p j, instrAtPos f p = some j → pureKind j = true → sdomPt T p (cur, k) = true → Holds ctx env j)
+    (hupd : env' = env ∨ ∃ z w, dstName i = some z ∧ env' = env.set z w)
+    (hself : pureKind i = true → Holds ctx env' i) :
+    ∀ p j, instrAtPos f p = some j → pureKind j = true → sdomPt T p (cur, k + 1) = true → Holds ctx env' j := by
+  intro p j hj hpj hdom
+  by_cases hp : p = (cur, k)
+  · subst hp
+    have := instrAtPos_det hi hj; subst this
+    exact hself hpj
+  · have hdom' := sdomPt_succ hdom hp
+    have hh := hinv p j hj hpj hdom'
+    rcases hupd with rfl | ⟨z, w, hz, rfl⟩
+    · exact hh
+    · obtain ⟨h1, h2⟩ := fresh_of_facts hf hj hi hz (.inl hdom')
+      exact hh.set w h1 h2
+
+/-- the name assigned by a non-pure instruction is fresh for all equations of the next program point -/
+theorem fresh_advance {f : Func} {T : DomTab} (hf : SSAFacts f T) {cur : String} {k : Nat} {i : Instr}
+    (hi : instrAtPos f (cur, k) = some i) {d : String} (hz : dstName i = some d) (hnp : pureKind i = false) :
+    ∀ p j, instrAtPos f p = some j → pureKind j = true → sdomPt T p (cur, k + 1) = true →
+      dstName j ≠ some d ∧ Operand.loc d ∉ j.uses := by
+  intro p j hj hpj hdom
+  have hp : p ≠ (cur, k) := by
+    intro e; subst e
+    have := instrAtPos_det hi hj; subst this
+    rw [hnp] at hpj; exact Bool.noConfusion hpj
+  exact fresh_of_facts hf hj hi hz (.inl (sdomPt_succ hdom hp))
+
+theorem phiValues_names {ctx : Ctx} {env : Env} {pred : String} : ∀ {l : List Instr} {vals : List (String × Val)},
+    phiValues ctx env pred l = .ok vals → ∀ zv ∈ vals, ∃ (k : Nat) (ty : Ty) (ins : List (String × Operand)), l[k]? = some (Instr.phi zv.1 ty ins)
+  | [], vals, h, zv, hzv => by simp [phiValues] at h; subst h; simp at hzv
+  | i :: r, vals, h, zv, hzv => by
+    cases hp : i.isPhi with
+    | false =>
+      rw [phiValues_nonphi _ _ _ _ hp] at h
+      obtain ⟨k, ty, ins, hk⟩ := phiValues_names h zv hzv
+      exact ⟨k + 1, ty, ins, by simpa using hk⟩
+    | true =>
+      obtain ⟨d, ty, ins, rfl⟩ := removable_not_phi_or hp
+      simp only [phiValues] at h
+      cases hl : lookupStr ins pred with
+      | none => simp [hl] at h
+      | some o =>
+        simp only [hl] at h
+        cases hv : evalOpnd ctx env o with
+        | error e => simp [hv, bind, Except.bind] at h
+        | ok v =>
+          simp only [hv, bind, Except.bind] at h
+          cases hr : phiValues ctx env pred r with
+          | error e => simp [hr] at h
+          | ok vs =>
+            simp only [hr, pure, Except.pure, Except.ok.injEq] at h
+            subst h
+            rcases List.mem_cons.1 hzv with rfl | hmem
+            · exact ⟨0, ty, ins, by simp⟩
+            · obtain ⟨k, ty', ins', hk⟩ := phiValues_names hr zv hmem
+              exact ⟨k + 1, ty', ins', by simpa using hk⟩
+
+theorem Holds.setMany {ctx : Ctx} {j : Instr} : ∀ {vals : List (String × Val)} {env : Env}, Holds ctx env j →
+    (∀ zv ∈ vals, dstName j ≠ some zv.1 ∧ Operand.loc zv.1 ∉ j.uses) → Holds ctx (env.setMany vals) j
+  | [], _, h, _ => h
+  | (z, w) :: vs, env, h, hfresh => by
+    rw [setMany_cons]
+    have := hfresh (z, w) (by simp)
+    exact Holds.setMany (h.set w this.1 this.2) (fun zv hzv => hfresh zv (by simp [hzv]))
+
+/-- the equations that must hold at the start of block `Q`, entered from the terminator `i` at `(cur, k)` -/
+theorem inv_enter {ctx : Ctx} {f : Func} {T : DomTab} (hf : SSAFacts f T) {cur : String} {k : Nat} {i : Instr}
+    {b bQ : Block} (hb : f.findBlock cur = some b) (hi : b.instrs[k]? = some i) (hterm : i.isTerminator = true)
+    {Q : String} (hQ : Q ∈ i.targets) (hbQ : f.findBlock Q = some bQ) {env : Env}
+    (hinv : ∀ p j, instrAtPos f p = some j → pureKind j = true → sdomPt T p (cur, k) = true → Holds ctx env j)
+    {vals : List (String × Val)} (hvals : phiValues ctx env cur bQ.instrs = .ok vals) :
+    ∀ p j, instrAtPos f p = some j → pureKind j = true → sdomPt T p (Q, 0) = true → Holds ctx (env.setMany vals) j := by
+  intro p j hj hpj hdom
+  obtain ⟨hbm, hbn⟩ := findBlock_mem hb
+  obtain ⟨hlast, hsuccs⟩ := terminator_is_last (hf.term b hbm) hi hterm
+  -- p lies in another block that dominates Q
+  have hpQ : p.1 ≠ Q ∧ T.dom p.1 Q = true := by
+    simp only [sdomPt] at hdom
+    by_cases e : p.1 = Q
+    · simp [e] at hdom
+    · simp only [e, ↓reduceIte] at hdom; exact ⟨e, hdom⟩
+  have hdomcur : T.dom p.1 cur = true := by
+    have := hf.closure b hbm Q (by rw [hsuccs]; exact hQ) p.1 hpQ.1 hpQ.2
+    rw [hbn] at this; exact this
+  have hdomk : sdomPt T p (cur, k) = true := by
+    simp only [sdomPt]
+    by_cases e : p.1 = cur
+    · simp only [e, ↓reduceIte, decide_eq_true_eq]
+      obtain ⟨b2, hb2, hj2⟩ := instrAtPos_iff.1 hj
+      rw [e, hb] at hb2
+      have := Option.some.inj hb2; subst this
+      obtain ⟨hlt, _⟩ := List.getElem?_eq_some_iff.1 hj2
+      have hne : p.2 ≠ k := by
+        intro e2; rw [e2, hi] at hj2
+        have := Option.some.inj hj2; subst this
+        rw [pure_not_terminator hpj] at hterm; exact Bool.noConfusion hterm
+      omega
+    · simp only [e, ↓reduceIte]; exact hdomcur
+  refine (hinv p j hj hpj hdomk).setMany ?_
+  intro zv hzv
+  obtain ⟨kz, ty, ins, hkz⟩ := phiValues_names hvals zv hzv
+  have hiz : instrAtPos f (Q, kz) = some (Instr.phi zv.1 ty ins) := instrAtPos_iff.2 ⟨bQ, hbQ, hkz⟩
+  exact fresh_of_facts hf hj hiz rfl (.inr hpQ)
+
+
+/-- invariant of one activation; `rt` = the name that the callee above will assign on return (if any) -/
+def FrameInv (ctx : Ctx) (T : DomTab) (fr : Frame) (rt : Option String) : Prop :=
+  ∃ b k, fr.fn.findBlock fr.cur = some b ∧ fr.rest = b.instrs.drop k ∧
+    (∀ p j, instrAtPos fr.fn p = some j → pureKind j = true → sdomPt T p (fr.cur, k) = true → Holds ctx fr.env j) ∧
+    (∀ d, rt = some d → ∀ p j, instrAtPos fr.fn p = some j → pureKind j = true → sdomPt T p (fr.cur, k) = true →
+        dstName j ≠ some d ∧ Operand.loc d ∉ j.uses)
+
+def FrameOK (ctx : Ctx) (fr : Frame) (rt : Option String) : Prop :=
+  SSAFacts fr.fn (computeDoms fr.fn) ∧ FrameInv ctx (computeDoms fr.fn) fr rt
+
+def ChainOK (ctx : Ctx) : Option String → List Frame → Prop
+  | _, [] => True
+  | rt, c :: cs => FrameOK ctx c rt ∧ ChainOK ctx c.retTo cs
+
+def StateOK (ctx : Ctx) (s : State) : Prop := FrameOK ctx s.top none ∧ ChainOK ctx s.top.retTo s.callers
+
+def ModFacts (m : Module) : Prop := ∀ f ∈ m.funcs, SSAFacts f (computeDoms f)
+
+theorem self_not_used {f : Func} {T : DomTab} (hf : SSAFacts f T) {q : Pos} {i : Instr} {d : String}
+    (hi : instrAtPos f q = some i) (hd : dstName i = some d) : Operand.loc d ∉ i.uses := by
+  intro hu
+  obtain ⟨b, hb, hib⟩ := instrAtPos_iff.1 hi
+  obtain ⟨hbm, hbn⟩ := findBlock_mem hb
+  have huse := (hf.uses b hbm q.2 i hib).1 _ hu
+  simp only [useOk, not_param_of_def hf hi hd, Bool.false_or, defPos_of_def hf hi hd] at huse
+  rw [hbn] at huse
+  have : sdomPt T q (q.1, q.2) = false := sdomPt_irrefl T q
+  rw [this] at huse; exact Bool.noConfusion huse
+
+/-- what an effect instruction assigns is its own result -/
+theorem effect_dst {ctx : Ctx} {fname : String} {mem : Mem} {env : Env} {i : Instr}
+    {p : Mem × Option (String × Val)} (h : effect ctx fname mem env i = some (.ok p)) :
+    p.2 = none ∨ ∃ z w, dstName i = some z ∧ p.2 = some (z, w) := by
+  cases i <;> simp only [effect, Option.some.injEq, bind, Except.bind, pure, Except.pure, reduceCtorEq] at h
+  case const d ty c =>
+    cases hv : Spec.IR.evalConst ctx.cfg ty c with
+    | error e => simp [hv] at h
+    | ok v => simp only [hv, Except.ok.injEq] at h; subst h; exact .inr ⟨d, v, rfl, rfl⟩
+  case undefined d ty => simp only [Except.ok.injEq] at h; subst h; exact .inr ⟨d, _, rfl, rfl⟩
+  case literal d data =>
+    split at h
+    · simp only [Except.ok.injEq] at h; subst h; exact .inr ⟨d, _, rfl, rfl⟩
+    · simp at h
+  case alloc d sz al => simp only [Except.ok.injEq] at h; subst h; exact .inr ⟨d, _, rfl, rfl⟩
+  case addrof d src =>
+    cases hv : evalOpnd ctx env src with
+    | error e => simp [hv] at h
+    | ok v => simp only [hv, Except.ok.injEq] at h; subst h; exact .inr ⟨d, v, rfl, rfl⟩
+  case binop d ty op a b =>
+    cases hx : evalOpnd ctx env a with
+    | error e => simp [hx] at h
+    | ok x =>
+      cases hy : evalOpnd ctx env b with
+      | error e => simp [hx, hy] at h
+      | ok y =>
+        cases hv : evalBinop ctx.cfg ty op x y with
+        | error e => simp [hx, hy, hv] at h
+        | ok v => simp only [hx, hy, hv, Except.ok.injEq] at h; subst h; exact .inr ⟨d, v, rfl, rfl⟩
+  case unop d ty op a =>
+    cases hx : evalOpnd ctx env a with
+    | error e => simp [hx] at h
+    | ok x =>
+      cases hv : evalUnop ctx.cfg ty op x with
+      | error e => simp [hx, hv] at h
+      | ok v => simp only [hx, hv, Except.ok.injEq] at h; subst h; exact .inr ⟨d, v, rfl, rfl⟩
+  case cast d ty a =>
+    cases hx : evalOpnd ctx env a with
+    | error e => simp [hx] at h
+    | ok x =>
+      cases hv : evalCast ctx.cfg ty x with
+      | error e => simp [hx, hv] at h
+      | ok v => simp only [hx, hv, Except.ok.injEq] at h; subst h; exact .inr ⟨d, v, rfl, rfl⟩
+  case load d ty addr vol =>
+    cases ha : evalAddr ctx env addr "load" with
+    | error e => simp [ha] at h
+    | ok a =>
+      simp only [ha] at h
+      split at h
+      · simp only [Except.ok.injEq] at h; subst h; exact .inr ⟨d, _, rfl, rfl⟩
+      · simp at h
+  case store ty v addr vol =>
+    cases ha : evalAddr ctx env addr "store" with
+    | error e => simp [ha] at h
+    | ok a =>
+      cases hx : evalOpnd ctx env v with
+      | error e => simp [ha, hx] at h
+      | ok x =>
+        cases hb : encodeVal ctx.cfg ty x with
+        | error e => simp [ha, hx, hb] at h
+        | ok bs =>
+          simp only [ha, hx, hb] at h
+          split at h
+          · simp only [Except.ok.injEq] at h; subst h; exact .inl rfl
+          · simp at h
+  case copyblob d src n =>
+    cases hd : evalAddr ctx env d "memcpy" with
+    | error e => simp [hd] at h
+    | ok da =>
+      cases hs : evalAddr ctx env src "memcpy" with
+      | error e => simp [hd, hs] at h
+      | ok sa =>
+        cases hc : copyBytes ctx.cfg mem da sa n with
+        | error e => simp [hd, hs, hc] at h
+        | ok m' => simp only [hd, hs, hc, Except.ok.injEq] at h; subst h; exact .inl rfl
+  case phi d ty ins => simp only [Except.ok.injEq] at h; subst h; exact .inl rfl
+
+theorem enterBlock_shape {ctx : Ctx} {fr nf : Frame} {t : String} (h : enterBlock ctx fr t = .ok nf) :
+    ∃ bQ vals, fr.fn.findBlock t = some bQ ∧ phiValues ctx fr.env fr.cur bQ.instrs = .ok vals ∧
+      nf = { fr with cur := t, rest := bQ.instrs, env := fr.env.setMany vals } := by
+  simp only [enterBlock] at h
+  cases hb : fr.fn.findBlock t with
+  | none => simp [hb] at h
+  | some bQ =>
+    simp only [hb] at h
+    cases hv : phiValues ctx fr.env fr.cur bQ.instrs with
+    | error e => simp [hv, bind, Except.bind] at h
+    | ok vals =>
+      simp only [hv, bind, Except.bind, pure, Except.pure, Except.ok.injEq] at h
+      exact ⟨bQ, vals, rfl, hv, h.symm⟩
+
+theorem newFrame_shape {cfg : Config} {f : Func} {vs : List Val} {sp : Nat} {rt : Option String} {nf : Frame}
+    (h : newFrame cfg f vs sp rt = .ok nf) :
+    ∃ bE env, f.findBlock f.entry = some bE ∧ nf = { fn := f, cur := f.entry, rest := bE.instrs, env := env, spSave := sp, retTo := rt } := by
+  simp only [newFrame] at h
+  cases hp : bindParams cfg f.params vs with
+  | none => simp [hp] at h
+  | some env =>
+    cases hb : f.findBlock f.entry with
+    | none => simp [hp, hb] at h
+    | some bE =>
+      simp only [hp, hb, Except.ok.injEq] at h
+      exact ⟨bE, env, rfl, h.symm⟩
+
+/-- a fresh activation satisfies the invariant: nothing strictly dominates the entry point -/
+theorem frameOK_new {ctx : Ctx} {f : Func} (hf : SSAFacts f (computeDoms f)) {bE : Block} (hb : f.findBlock f.entry = some bE)
+    (env : Env) (sp : Nat) (rt : Option String) :
+    FrameOK ctx { fn := f, cur := f.entry, rest := bE.instrs, env := env, spSave := sp, retTo := rt } none := by
+  refine ⟨hf, bE, 0, hb, by simp, ?_, ?_⟩
+  · intro p j _ _ hdom
+    simp only [sdomPt] at hdom
+    by_cases e : p.1 = f.entry
+    · simp [e] at hdom
+    · simp only [e, ↓reduceIte] at hdom
+      rw [hf.entry p.1 e] at hdom; exact Bool.noConfusion hdom
+  · intro d hd; cases hd
+
+theorem FrameOK.weaken {ctx : Ctx} {fr : Frame} {rt : Option String} (h : FrameOK ctx fr rt) : FrameOK ctx fr none := by
+  obtain ⟨hf, b, k, hb, hr, hinv, _⟩ := h
+  exact ⟨hf, b, k, hb, hr, hinv, fun d hd => by cases hd⟩
+
+
+theorem findFunc_mem {m : Module} {n : String} {f : Func} (h : m.findFunc n = some f) : f ∈ m.funcs :=
+  List.mem_of_find?_eq_some h
+
+/-- the invariant after an instruction that stays in the block (`env'` as described by `hupd`) -/
+theorem frameOK_advance {ctx : Ctx} {fr : Frame} {b : Block} {k : Nat} {i : Instr} {rest' : List Instr}
+    (hf : SSAFacts fr.fn (computeDoms fr.fn)) (hb : fr.fn.findBlock fr.cur = some b)
+    (hik : b.instrs[k]? = some i) (hrest' : b.instrs.drop (k + 1) = rest')
+    (hinv : ∀ p j, instrAtPos fr.fn p = some j → pureKind j = true →
+      sdomPt (computeDoms fr.fn) p (fr.cur, k) = true → Holds ctx fr.env j)
+    {env' : Env} (hupd : env' = fr.env ∨ ∃ z w, dstName i = some z ∧ env' = fr.env.set z w)
+    (hself : pureKind i = true → Holds ctx env' i) (rt : Option String)
+    (hrt : ∀ d, rt = some d → dstName i = some d ∧ pureKind i = false) :
+    FrameOK ctx { fr with rest := rest', env := env' } rt := by
+  have hi : instrAtPos fr.fn (fr.cur, k) = some i := instrAtPos_iff.2 ⟨b, hb, hik⟩
+  refine ⟨hf, b, k + 1, hb, hrest'.symm, inv_advance hf hi hinv hupd hself, ?_⟩
+  intro d hd
+  obtain ⟨h1, h2⟩ := hrt d hd
+  exact fresh_advance hf hi h1 h2
+
+/-- **S6**: the equations of all pure instructions that strictly dominate the current point are an invariant
+    of execution (for all activations on the stack) -/
+theorem inv_step {ctx : Ctx} (hm : ModFacts ctx.mod) {s t : State} (hs : StateOK ctx s) (h : step ctx s = .next t) :
+    StateOK ctx t := by
+  have hE := stepE_ok_of_step_next h
+  obtain ⟨⟨hf, b, k, hb, hrest, hinv, _⟩, hchain⟩ := hs
+  cases hr : s.top.rest with
+  | nil => rw [stepE_nil hr] at hE; simp at hE
+  | cons i rest' =>
+    rw [hr] at hrest
+    obtain ⟨hik, hdrop, hklt⟩ := drop_eq_cons hrest.symm
+    have hi : instrAtPos s.top.fn (s.top.cur, k) = some i := instrAtPos_iff.2 ⟨b, hb, hik⟩
+    cases he : effect ctx s.top.fn.name s.mem s.top.env i with
+    | some eff =>
+      rw [stepE_effect hr he] at hE
+      cases eff with
+      | error e => simp [Except.map] at hE
+      | ok p =>
+        simp only [Except.map, Except.ok.injEq, StepR.next.injEq] at hE
+        subst hE
+        refine ⟨?_, hchain⟩
+        have hupd : (match p.2 with | some (d, v) => s.top.env.set d v | none => s.top.env) = s.top.env ∨
+            ∃ z w, dstName i = some z ∧ (match p.2 with | some (d, v) => s.top.env.set d v | none => s.top.env) = s.top.env.set z w := by
+          rcases effect_dst he with h0 | ⟨z, w, hz, h1⟩
+          · left; rw [h0]
+          · right; exact ⟨z, w, hz, by rw [h1]⟩
+        refine frameOK_advance (fr := s.top) hf hb hik hdrop hinv hupd ?_ none (fun d hd => by cases hd)
+        intro hp
+        obtain ⟨d, v, hd, hpeq, hall⟩ := pure_effect hp he
+        subst hpeq
+        refine ⟨d, v, hd, ?_, by simp only [Env.get_set_eq]⟩
+        intro fname mem
+        have hnot := self_not_used hf hi hd
+        have := effect_congr (ctx := ctx) (ctx' := ctx) rfl rfl (env := s.top.env) (env' := s.top.env.set d v) (i := i) id fname mem
+          (fun o ho => evalOpnd_set_ne ctx s.top.env d v (fun e => hnot (e ▸ ho)))
+        rw [mapOps_id] at this
+        rw [this]; exact hall fname mem
+    | none =>
+      cases i <;> simp only [effect, reduceCtorEq] at he
+      case jump tgt =>
+        rw [stepE_jump hr] at hE
+        cases hb2 : enterBlock ctx { s.top with rest := rest' } tgt with
+        | error e => simp [hb2, bind, Except.bind] at hE
+        | ok nf =>
+          simp only [hb2, bind, Except.bind, pure, Except.pure, Except.ok.injEq, StepR.next.injEq] at hE
+          subst hE
+          obtain ⟨bQ, vals, hbQ, hvals, rfl⟩ := enterBlock_shape hb2
+          refine ⟨⟨hf, bQ, 0, hbQ, by simp, ?_, fun d hd => by cases hd⟩, hchain⟩
+          exact inv_enter hf hb hik rfl (by simp [Instr.targets]) hbQ hinv hvals
+      case cjump a c b2 yes no =>
+        rw [stepE_cjump hr] at hE
+        cases hx : evalOpnd ctx s.top.env a with
+        | error e => simp [hx, bind, Except.bind] at hE
+        | ok x =>
+          cases hy : evalOpnd ctx s.top.env b2 with
+          | error e => simp [hx, hy, bind, Except.bind] at hE
+          | ok y =>
+            cases ht : evalCond c x y with
+            | error e => simp [hx, hy, ht, bind, Except.bind] at hE
+            | ok tv =>
+              simp only [hx, hy, ht, bind, Except.bind] at hE
+              cases hb2 : enterBlock ctx { s.top with rest := rest' } (if tv then yes else no) with
+              | error e => simp [hb2] at hE
+              | ok nf =>
+                simp only [hb2, pure, Except.pure, Except.ok.injEq, StepR.next.injEq] at hE
+                subst hE
+                obtain ⟨bQ, vals, hbQ, hvals, rfl⟩ := enterBlock_shape hb2
+                refine ⟨⟨hf, bQ, 0, hbQ, by simp, ?_, fun d hd => by cases hd⟩, hchain⟩
+                exact inv_enter hf hb hik rfl (by cases tv <;> simp [Instr.targets]) hbQ hinv hvals
+      case ret v =>
+        rw [stepE_ret hr] at hE
+        cases hret : s.top.fn.ret with
+        | none => simp [hret] at hE
+        | some rty =>
+          simp only [hret] at hE
+          cases hx : evalOpnd ctx s.top.env v with
+          | error e => simp [hx, bind, Except.bind] at hE
+          | ok x =>
+            simp only [hx, bind, Except.bind, doReturn] at hE
+            cases hcs : s.callers with
+            | nil => simp only [hcs] at hE; split at hE <;> simp at hE
+            | cons c cs =>
+              rw [hcs] at hchain
+              obtain ⟨hc, hcc⟩ := hchain
+              simp only [hcs] at hE
+              cases hrt : s.top.retTo with
+              | none =>
+                simp only [hrt, Except.ok.injEq, StepR.next.injEq] at hE; subst hE
+                exact ⟨hc.weaken, hcc⟩
+              | some d =>
+                simp only [hrt, Except.ok.injEq, StepR.next.injEq] at hE; subst hE
+                rw [hrt] at hc
+                obtain ⟨hcf, cb, ck, hcb, hcr, hcinv, hcfresh⟩ := hc
+                refine ⟨⟨hcf, cb, ck, hcb, hcr, ?_, fun d hd => by cases hd⟩, hcc⟩
+                intro p j hj hpj hdom
+                obtain ⟨h1, h2⟩ := hcfresh d rfl p j hj hpj hdom
+                exact (hcinv p j hj hpj hdom).set x h1 h2
+      case exit =>
+        rw [stepE_exit hr] at hE
+        cases hret : s.top.fn.ret with
+        | some rty => simp [hret] at hE
+        | none =>
+          simp only [hret, doReturn] at hE
+          cases hcs : s.callers with
+          | nil => simp [hcs] at hE
+          | cons c cs =>
+            rw [hcs] at hchain
+            obtain ⟨hc, hcc⟩ := hchain
+            simp only [hcs] at hE
+            cases hrt : s.top.retTo with
+            | none =>
+              simp only [hrt, Except.ok.injEq, StepR.next.injEq] at hE; subst hE
+              exact ⟨hc.weaken, hcc⟩
+            | some d => simp [hrt] at hE
+      case fcall d ty callee args =>
+        rw [stepE_fcall hr, doCall_eq] at hE
+        cases hn : calleeName ctx s.top.env callee with
+        | error e => simp [hn, bind, Except.bind] at hE
+        | ok name =>
+          cases hvs : evalOpnds ctx s.top.env args with
+          | error e => simp [hn, hvs, bind, Except.bind] at hE
+          | ok vs =>
+            simp only [hn, hvs, bind, Except.bind, callNamed] at hE
+            have hadv : ∀ rt, (∀ d', rt = some d' → d' = d) → FrameOK ctx { s.top with rest := rest' } rt := by
+              intro rt hrt
+              have := frameOK_advance (ctx := ctx) (fr := s.top) (env' := s.top.env) hf hb hik hdrop hinv (.inl rfl)
+                (fun hp => by simp [pureKind] at hp) rt
+                (fun d' hd' => by rw [hrt d' hd']; exact ⟨rfl, rfl⟩)
+              simpa using this
+            cases hff : ctx.mod.findFunc name with
+            | some g =>
+              simp only [hff] at hE
+              have hg := hm g (findFunc_mem hff)
+              split at hE
+              · simp [throw, throwThe, MonadExceptOf.throw] at hE
+              · cases hnf : newFrame ctx.cfg g vs s.mem.stack.size (some d) with
+                | error e => simp [hnf] at hE
+                | ok nf =>
+                  simp only [Option.map, hnf, pure, Except.pure, Except.ok.injEq, StepR.next.injEq] at hE
+                  subst hE
+                  obtain ⟨bE, env, hbE, rfl⟩ := newFrame_shape hnf
+                  exact ⟨frameOK_new hg hbE env _ _, hadv (some d) (fun d' hd' => (Option.some.inj hd').symm), hchain⟩
+            | none =>
+              simp only [hff] at hE
+              cases hfe : ctx.mod.findExtern name with
+              | none => simp [hfe, throw, throwThe, MonadExceptOf.throw] at hE
+              | some e =>
+                simp only [hfe] at hE
+                split at hE
+                · simp [throw, throwThe, MonadExceptOf.throw] at hE
+                · split at hE
+                  · rename_i as rty d2 ty2 hk heq
+                    simp only [pure, Except.pure, Except.ok.injEq, StepR.next.injEq] at hE
+                    subst hE
+                    simp only [Option.some.injEq, Prod.mk.injEq] at heq
+                    obtain ⟨rfl, rfl⟩ := heq
+                    refine ⟨?_, hchain⟩
+                    exact frameOK_advance (ctx := ctx) (fr := s.top) hf hb hik hdrop hinv (.inr ⟨d, _, rfl, rfl⟩)
+                      (fun hp => by simp [pureKind] at hp) none (fun d' hd' => by cases hd')
+                  · rename_i heq; simp at heq
+                  · rename_i heq; simp at heq
+                  · simp [throw, throwThe, MonadExceptOf.throw] at hE
+                  · simp [throw, throwThe, MonadExceptOf.throw] at hE
+      case pcall callee args =>
+        rw [stepE_pcall hr, doCall_eq] at hE
+        cases hn : calleeName ctx s.top.env callee with
+        | error e => simp [hn, bind, Except.bind] at hE
+        | ok name =>
+          cases hvs : evalOpnds ctx s.top.env args with
+          | error e => simp [hn, hvs, bind, Except.bind] at hE
+          | ok vs =>
+            simp only [hn, hvs, bind, Except.bind, callNamed] at hE
+            have hadv : FrameOK ctx { s.top with rest := rest' } none := by
+              have := frameOK_advance (ctx := ctx) (fr := s.top) (env' := s.top.env) hf hb hik hdrop hinv (.inl rfl)
+                (fun hp => by simp [pureKind] at hp) none (fun d' hd' => by cases hd')
+              simpa using this
+            cases hff : ctx.mod.findFunc name with
+            | some g =>
+              simp only [hff] at hE
+              have hg := hm g (findFunc_mem hff)
+              split at hE
+              · rename_i heq; simp at heq
+              · cases hnf : newFrame ctx.cfg g vs s.mem.stack.size none with
+                | error e => simp [hnf] at hE
+                | ok nf =>
+                  simp only [Option.map, hnf, pure, Except.pure, Except.ok.injEq, StepR.next.injEq] at hE
+                  subst hE
+                  obtain ⟨bE, env, hbE, rfl⟩ := newFrame_shape hnf
+                  exact ⟨frameOK_new hg hbE env _ _, hadv, hchain⟩
+            | none =>
+              simp only [hff] at hE
+              cases hfe : ctx.mod.findExtern name with
+              | none => simp [hfe, throw, throwThe, MonadExceptOf.throw] at hE
+              | some e =>
+                simp only [hfe] at hE
+                split at hE
+                · simp [throw, throwThe, MonadExceptOf.throw] at hE
+                · split at hE
+                  · rename_i heq; simp at heq
+                  · simp only [pure, Except.pure, Except.ok.injEq, StepR.next.injEq] at hE
+                    subst hE
+                    exact ⟨hadv, hchain⟩
+                  · simp only [pure, Except.pure, Except.ok.injEq, StepR.next.injEq] at hE
+                    subst hE
+                    exact ⟨hadv, hchain⟩
+                  · simp [throw, throwThe, MonadExceptOf.throw] at hE
+                  · simp [throw, throwThe, MonadExceptOf.throw] at hE
+
+
+theorem initState_ok {ctx : Ctx} (hm : ModFacts ctx.mod) {fname : String} {args : List Val} {s : State}
+    (h : initState ctx fname args = .ok s) : StateOK ctx s := by
+  simp only [initState] at h
+  cases hf : ctx.mod.findFunc fname with
+  | none => simp [hf] at h
+  | some f =>
+    simp only [hf] at h
+    cases hnf : newFrame ctx.cfg f args 0 none with
+    | error e => simp [hnf, bind, Except.bind] at h
+    | ok nf =>
+      simp only [hnf, bind, Except.bind, pure, Except.pure, Except.ok.injEq] at h
+      subst h
+      obtain ⟨bE, env, hbE, rfl⟩ := newFrame_shape hnf
+      exact ⟨frameOK_new (hm f (findFunc_mem hf)) hbE env _ _, trivial⟩
 
 end Proofs.Opt
